@@ -472,6 +472,48 @@ def rlScenario (steal : Bool) (old new : RLSpec) (pre : List FReq) (ops : List (
       r.2 :: goOps r.1 qs
   (p.2, goOps inh.1 ops)
 
+/-! ### Kinds whose `Close` cannot influence `Handle` (generic)
+
+For most kinds `Close()` is empty or only touches fields `Handle` never looks at (a cancel function,
+a stop channel). The regenerated facts `FactsC11.handleReads` / `closeTouches` give, per kind, the
+receiver fields `Handle` (and its same-package callees) mentions and the fields `Close` (its callees,
+and the goroutines it wakes) assigns / closes / calls. A `FieldKind` is *any* filter whose `Handle`
+depends on its receiver only through `reads` and whose `Close` changes the receiver only inside
+`closeTouches`; the state is the receiver as an opaque valuation of its fields. -/
+
+abbrev Fields := String → Nat
+
+structure FieldKind where
+  reads : List String
+  closeTouches : List String
+  /-- does `Handle` panic on a receiver in this state (for some request)? -/
+  handlePanics : Fields → Bool
+  /-- `Close()` -/
+  closeFn : Fields → Fields
+  /-- `Init()` of a fresh instance from its spec (what `Inherit` does for these kinds) -/
+  initFn : Fields → Fields
+
+/-- The two modelling assumptions the regenerated field sets stand for. -/
+structure FieldKind.WellFormed (K : FieldKind) : Prop where
+  handle_dep : ∀ f g : Fields, (∀ x ∈ K.reads, f x = g x) → K.handlePanics f = K.handlePanics g
+  close_frame : ∀ (f : Fields) (x : String), x ∉ K.closeTouches → K.closeFn f x = f x
+
+def FieldKind.toKindModel (K : FieldKind) : KindModel Fields :=
+  { inherit := fun n o => (K.initFn n, o), close := K.closeFn, usable := fun s => K.handlePanics s = false }
+
+/-- Exercised kinds for which the regenerated facts say: `Inherit` does not mention the previous
+generation and `closeTouches ∩ handleReads = ∅` (obligation `close_disjoint_from_handle`). -/
+def independentKinds : List String :=
+  ["CORSAdaptor", "CertExtractor", "ConnectControl", "Fallback", "HeaderLookup", "HeaderToJSON",
+   "MQTTClientAuth", "MeshAdaptor", "Mock", "RemoteFilter", "RequestAdaptor", "RequestBuilder",
+   "ResponseAdaptor", "ResponseBuilder", "TopicMapper"]
+
+/-- Exercised kinds whose `Close` touches something `Handle` uses and which have no explicit model:
+the effect of `Close` on a later `Handle` is **sampled** by the `filters` harness only. -/
+def closeInterferingKinds : List (String × String) :=
+  [("Proxy", "Close closes mainPool / mirrorPool (and the candidate pools): stops their health checkers and load balancers; Handle picks a pool and a server from them"),
+   ("Validator", "Close closes basicAuth (stops the user file / etcd watcher goroutine and cancels its context); Handle calls basicAuth.Validate on the cached credentials")]
+
 /-! ### Kafka / KafkaMQTT (explicit; `pkg/filters/kafkabackend/kafka.go`, `pkg/filters/kafka/kafka.go`)
 
 Both kinds own a `sarama.AsyncProducer`. `Close()` closes `k.done`; a watcher goroutine then calls
